@@ -361,4 +361,36 @@ func genC09(g *Gen) {
 		}
 		upto(a, r1, "rand-upto")
 	}
+
+	// (3) structured sweep aimed at cmpBytes' manual loop / bytes.Compare switch and at CmpUpto's stages:
+	// payload byte lengths 1..12 x last-byte fill x position of the single differing byte x which bit x
+	// length of a (just past the difference, one short of / equal to / one past the payload)
+	sweep := []byte("\x61\x00\x7f\x80\xff\x62\x01\x61\x7f\x80\x00\xff\x62\x61")
+	for n := 1; n <= 12; n++ {
+		s := append([]byte{}, sweep[:n]...)
+		for _, t := range []int{8 * n, 8*n - 3, 8*n - 7} {
+			r := c09Range{s, 0, t}
+			for _, la := range []int{n - 1, n, n + 1} {
+				upto(append([]byte{}, sweep[:la]...), r, "sweep-upto-eq")
+			}
+			for i := 0; i < n; i++ {
+				for _, m := range []byte{0x80, 0x01} {
+					a := append([]byte{}, sweep[:n+1]...)
+					a[i] ^= m
+					for _, la := range []int{i + 1, n - 1, n, n + 1} {
+						if la > i && la <= len(a) {
+							upto(append([]byte{}, a[:la]...), r, "sweep-upto-diff")
+						}
+					}
+					// the same pair as two bit strings, cut at the same and at different places
+					for _, t2 := range []int{8 * n, 8*n - 3, 8 * (i + 1)} {
+						r2 := c09Range{append([]byte{}, a[:n]...), 0, t2}
+						cmp(r, r2, "sweep-cmp")
+						cmp(r2, r, "sweep-cmp")
+					}
+				}
+			}
+		}
+	}
+	g.Exhaust = append(g.Exhaust, "CmpUpto/StrCmpUpto/Cmp: payload lengths 1..12 bytes x to in {8n,8n-3,8n-7} x every position of a single differing byte (high/low bit) x len(a) in {i+1,n-1,n,n+1}")
 }
